@@ -349,7 +349,7 @@ def run_anim_case(case, env, res, tmpdir, state):
                 for x in range(x0, min(sw, x0 + max(1, sw // 3))):
                     fr.putpixel((x, y), ((255, 0, 0, 255), (0, 255, 0, 255), (0, 0, 255, 255))[(i + x + y) % 3])
             frames.append(fr)
-        frames[0].save(path, "PNG", save_all=True, append_images=frames[1:], blend=case["apng_blend"], disposal=0, duration=100, loop=0)
+        frames[0].save(path, "PNG", save_all=True, append_images=frames[1:], blend=case["apng_blend"], disposal=0, duration=100, loop=0, **(dict(default_image=True) if case.get("apng_default") else {}))
     elif case.get("disposal") is not None:
         # a GIF whose frames are cut-outs: palette index 0 is transparent, every frame has
         # its opaque block elsewhere and is disposed of as given before the next one
@@ -391,16 +391,17 @@ def run_anim_case(case, env, res, tmpdir, state):
             if case["source"] == "memory":
                 # (lossless formats only) the payload must decode to the source's frames
                 src_im, got_im = Image.open(io.BytesIO(file_bytes)), Image.open(io.BytesIO(data))
-                if getattr(got_im, "n_frames", 1) != case["frames"]:
-                    errs.append(("anim-frame-count", getattr(got_im, "n_frames", 1), case["frames"]))
+                n_src = getattr(src_im, "n_frames", 1)
+                if getattr(got_im, "n_frames", 1) != n_src:
+                    errs.append(("anim-frame-count", getattr(got_im, "n_frames", 1), n_src))
                 else:
-                    for k in range(case["frames"]):
+                    for k in range(n_src):
                         src_im.seek(k)
                         got_im.seek(k)
                         if src_im.convert("RGBA").tobytes() != got_im.convert("RGBA").tobytes():
                             errs.append(("anim-frame-pixels", "frame %d of the re-encoded %s animation differs from the source's (disposal %r, blend %r)" % (k, case["fmt"], case.get("disposal"), case.get("apng_blend"))))
                             break
-                    res.count("frames of re-encoded native animations compared", case["frames"])
+                    res.count("frames of re-encoded native animations compared", n_src)
             elif data != file_bytes:
                 errs.append(("anim-payload-not-file-bytes", len(data), len(file_bytes)))
         res.count("graphics commands parsed", len(items))
@@ -528,6 +529,9 @@ def gen_sweep(persona):
                             yield dict(kind="still", style=style, cell=[4, 8], size=[3, 2], method=method, src=[12, 16], mode="RGB", alpha=alpha, source=source, file_fmt=fmt, frames=4, visits=visits, render_visits=j % 3 != 0, img_seed=7000 + j)
     for blend in ([0, 0, 0], [0, 0, 1], [0, 1, 0], [1, 1, 1]):
         yield dict(kind="anim", cell=[4, 8], size=[3, 2], src=[12, 8], frames=3, fmt="PNG", source="memory", apng_blend=blend, img_seed=sum(blend) + 40)
+    # an APNG whose first picture is a "default image" (shown by viewers that do not know
+    # APNG, not part of the animation): the animation is the remaining frames
+    yield dict(kind="anim", cell=[4, 8], size=[3, 2], src=[12, 8], frames=4, fmt="PNG", source="memory", apng_blend=[0, 0, 0], apng_default=True, img_seed=77)
     for frames in (2, 3, 4):
         yield dict(kind="anim", cell=[4, 8], size=[3, 2], src=[12, 8], frames=frames, fmt="GIF", source="memory", img_seed=frames * 7)
         for disposal in (0, 1, 2, 3):
